@@ -170,6 +170,9 @@ func verifKVRunMode(tag string, db DB, under DB, nOps int, narrow bool) {
 			}
 			m.flush()
 			bucketFlushed = true
+			// a bucket handle does not outlive the commit (Bolt): fetch it again
+			b = db.Bucket(name)
+			vapi.Assert(tag+".bucket", b != nil)
 			if under != nil {
 				// durable content of the backend equals the committed model
 				ub := under.Bucket(name)
